@@ -54,10 +54,14 @@ class IntervalLinear(object):
         self.bandwith = bandwith
         self._k       = 1
         self._value   = self.initial
+        self._jitter  = None
 
 
     def __call__(self, size):
         '''Call the interval to produce a new delay time taking into account the bandwith'''
         self._value = self.initial + (self._k*size)/self.bandwith
         self._k    *= self.factor
-        return self._value + random.random()
+        # one jitter per message: a fresh draw each time could make a delay shorter than the previous one
+        if self._jitter is None:
+            self._jitter = random.random()
+        return self._value + self._jitter
